@@ -31,7 +31,16 @@ def nullspace_measure(rec, cls_deg, detail, A, r):
         rec.eqint(t, "NullSpaceDimension", list(N.shape[:2]), [dim, want])
         N2 = q_to_float(np.asarray(fn_alias(Aq.copy())))
         N3 = q_to_float(np.asarray(u.quat_kernel(Aq.copy(), side=side)))
-        rec.flag(t, "AliasesAgree", bool(N2.shape == N.shape and N3.shape == N.shape and np.array_equal(N2, N) and np.array_equal(N3, N)))
+        # the aliases must meet the contract themselves (dimension, annihilation); bit-identity with the main entry
+        # point is a mechanism fact (a null-space basis is not unique)
+        okal = True
+        for Nx in (N2, N3):
+            okal = okal and list(Nx.shape[:2]) == [dim, want]
+            if okal and want:
+                Rz = omul(A, Nx) if side == "right" else omul(oherm(A), Nx)
+                okal = okal and ofro(Rz) <= 2.0 ** -30 * max(ofro(A), 1e-300) * max(ofro(Nx), 1e-300)
+        rec.flag(t, "AliasesAgree", bool(okal))
+        rec.flag(t, "M:AliasesReturnIdenticalArrays", bool(N2.shape == N.shape and N3.shape == N.shape and np.array_equal(N2, N) and np.array_equal(N3, N)))
         if list(N.shape[:2]) != [dim, want] or want == 0:
             continue
         res = omul(A, N) if side == "right" else omul(oherm(N), A)
@@ -76,7 +85,7 @@ def _class_job(args):
         want = float(out["detD"])
         top = float(np.prod([max(v, 1) for v in out["svals"]])) if out["svals"] else 1.0
         rec.units(t, "DieudonneIsProductOfSingularValues", units(abs(d - want), top, 4 * n * n))
-        rec.flag(t, "DetSpellingsAgree", d == d2)
+        rec.flag(t, "DetSpellingsAgree", abs(d - d2) <= 1e-12 * max(abs(d), abs(d2), top * 1e-3))
         rec.flag(t, "ZeroIffSingular", (abs(d) <= 1024 * EPS * top * n * n) == (r < n))
         if st["kind"] == "herm":
             t = rec.new("det(Moore)", "hermitian", detail)
